@@ -62,6 +62,14 @@ def runtime_patches(scratch):
     s = rd("proc.go")
     s = patch_once(s, "func retake(now int64) uint32 {\n", "func retake(now int64) uint32 {\n\tif verifSimOn != 0 {\n\t\treturn 0\n\t}\n", "proc.go")
     wr("proc.go", s)
+    # sync.Mutex switches to starvation mode (direct hand-off to the waiter) once a
+    # waiter has waited more than 1 ms of REAL time: on a loaded machine that changed
+    # who got a lock next, and with it the interleaving of a seed. In simulation the
+    # mutex sees a clock that stands still.
+    s = rd("sema.go")
+    s = patch_once(s, "func internal_sync_nanotime() int64 {\n\treturn nanotime()\n}",
+                   "func internal_sync_nanotime() int64 {\n\tif verifSimOn != 0 {\n\t\treturn 1\n\t}\n\treturn nanotime()\n}", "sema.go")
+    wr("sema.go", s)
     shutil.copy(os.path.join(VERIF, "rt/zverif.go"), os.path.join(rt, "zverif.go"))
     out[os.path.join(GOROOT, "src/runtime/zverif.go")] = os.path.join(rt, "zverif.go")
     return out
